@@ -15,7 +15,7 @@ var (
 	pfxURIs   = []string{"a", "a.", "a.b", "", "a.b.", "x"}
 	wcURIs    = []string{"a..c", ".b", "a.", "..", "a.b.", ".b.c", "a..", "x.y"}
 	badURIs   = []string{"a b", "a#b", "a..b", ".a", "a.", "", "a\tb"}
-	policies  = []string{"", "single", "first", "last", "roundrobin", "random"}
+	policies  = []string{"", "single", "first", "last", "roundrobin", "random", "roundrobin", "bogus"}
 	authroles = []string{"dev", "ops", "qa"}
 )
 
@@ -444,7 +444,7 @@ func (g *gen) opCall() {
 		o.D = append(o.D, KV{"disclose_me", Bool(true)})
 	}
 	req := g.nextReq(s)
-	if g.feats[s]["caller_prog"] && g.chance(0.15) {
+	if (g.feats[s]["caller_prog"] && g.chance(0.15)) || g.chance(0.02) {
 		o.D = append(o.D, KV{"progress", Bool(true)})
 		g.tag("progressive-call-invocation")
 	}
